@@ -215,6 +215,8 @@ package route
 //@   requires 0 <= i && i < len(rt) && 0 <= j && j < len(rt) && rt[i] != nil && rt[j] != nil
 //@   assigns nothing
 //@   ensures nopanic
+//@   // routes are ordered by DESCENDING path: i sorts before j iff path(j) < path(i)
+//@   ensures result == (rt[j].Path < rt[i].Path)
 //@
 //@ func (Routes).Swap
 //@   props C03
@@ -231,6 +233,22 @@ package route
 //@ // every target of the table has a URL
 //@ spec fun targetsOK(t Table) bool = forall h string, k int, j int :: 0 <= k && k < len(t[h]) && 0 <= j && j < len(t[h][k].Targets) ==> t[h][k].Targets[j].URL != nil
 //@
+//@ // the routes of a host are kept in descending path order (NewTable sorts them)
+//@ spec fun pathsDesc(rt Routes) bool opaque = forall i int, j int :: 0 <= i && i < j && j < len(rt) ==> !(rt[i].Path < rt[j].Path)
+//@ // facts about Go strings used below (axioms on the uninterpreted order and prefix relation):
+//@ // two prefixes of one string are prefixes of each other by length; a proper prefix is smaller; equal length means equal
+//@ spec fun strFacts() bool
+//@   axiom forall u string, a string, b string :: hasPrefix(u, a) && hasPrefix(u, b) && len(a) <= len(b) ==> hasPrefix(b, a)
+//@   axiom forall a string, b string :: hasPrefix(b, a) && a != b ==> a < b
+//@   axiom forall a string, b string :: hasPrefix(b, a) && len(a) == len(b) ==> a == b
+//@
+//@ func lemmaLongestPrefixFirst
+//@   props C03 C06
+//@   requires strFacts() && pathsDesc(rt) && 0 <= k0 && k0 < k && k < len(rt) && rt[k0] != nil && rt[k] != nil
+//@   requires hasPrefix(uri, rt[k0].Path) && hasPrefix(uri, rt[k].Path)
+//@   assigns nothing
+//@   ensures len(rt[k].Path) <= len(rt[k0].Path)
+//@
 //@ func (Table).lookup
 //@   props C03 C06
 //@   requires wfTable(t) && targetsOK(t) && pick != nil && match != nil
@@ -241,6 +259,10 @@ package route
 //@   ensures result != nil ==> result.URL != nil
 //@   // and it is routed whenever the first matching route has a target
 //@   ensures result == nil ==> forall k int :: 0 <= k && k < len(t[toLower(host)]) && matchesFn(match, path, t[toLower(host)][k]) && (forall j int :: 0 <= j && j < k ==> !matchesFn(match, path, t[toLower(host)][j])) ==> len(t[toLower(host)][k].Targets) == 0
+//@   // with the routes in descending path order, of two routes whose paths are both prefixes of the request path the
+//@   // earlier one has the longer (or equal) path: so under a prefix matcher the FIRST matching route is the LONGEST match
+//@   at "host = strings.ToLower(host)" apply forall k0 int, k int :: lemmaLongestPrefixFirst(t[host], path, k0, k)
+//@   ensures [local] strFacts() && pathsDesc(t[toLower(host)]) && (forall k int :: 0 <= k && k < len(t[toLower(host)]) ==> t[toLower(host)][k] != nil) ==> forall k0 int, k int :: 0 <= k0 && k0 < k && k < len(t[toLower(host)]) && hasPrefix(path, t[toLower(host)][k0].Path) && hasPrefix(path, t[toLower(host)][k].Path) ==> len(t[toLower(host)][k].Path) <= len(t[toLower(host)][k0].Path)
 //@   loop 1 invariant forall j int :: 0 <= j && j <= rangeindex ==> !matchesFn(match, path, t[host][j])
 //@
 //@ // host of the request as routes see it: default port removed, lower case
@@ -281,12 +303,12 @@ package route
 //@   ensures result == hosts
 //@   // the same patterns come back (not proved: permutation through two rewriting loops and the library sort)
 //@   ensures [assumed] forall x string :: inList(result, x) == old(inList(hosts, x))
-//@   ensures forall i int, j int :: 0 <= i && i < j && j < len(result) ==> !strLess(revHP(result[i]), revHP(result[j]))
+//@   ensures forall i int, j int :: 0 <= i && i < j && j < len(result) ==> !(revHP(result[i]) < revHP(result[j]))
 //@   loop 1 invariant forall k int :: 0 <= k && k <= rangeindex ==> hosts[k] == revHP(old(hosts[k]))
 //@   loop 1 invariant forall k int :: rangeindex < k && k < len(hosts) ==> hosts[k] == old(hosts[k])
-//@   loop 2 invariant forall i int, j int :: 0 <= i && i < j && j <= rangeindex ==> !strLess(revHP(hosts[i]), revHP(hosts[j]))
-//@   loop 2 invariant forall i int, j int :: rangeindex < i && i < j && j < len(hosts) ==> !strLess(hosts[i], hosts[j])
-//@   loop 2 invariant forall i int, j int :: 0 <= i && i <= rangeindex && rangeindex < j && j < len(hosts) ==> !strLess(revHP(hosts[i]), hosts[j])
+//@   loop 2 invariant forall i int, j int :: 0 <= i && i < j && j <= rangeindex ==> !(revHP(hosts[i]) < revHP(hosts[j]))
+//@   loop 2 invariant forall i int, j int :: rangeindex < i && i < j && j < len(hosts) ==> !(hosts[i] < hosts[j])
+//@   loop 2 invariant forall i int, j int :: 0 <= i && i <= rangeindex && rangeindex < j && j < len(hosts) ==> !(revHP(hosts[i]) < hosts[j])
 //@
 //@ func (Table).matchingHostNoGlob
 //@   props C03
@@ -684,6 +706,10 @@ package route
 //@   // an invalid configuration yields an error and NO table (never a partial one): the caller keeps the last good table
 //@   ensures err != nil ==> t == nil
 //@   ensures err == nil ==> t != nil && tableOK(t)
+//@   // every host's routes come out in descending path order (longest matching path first, see Table.lookup)
+//@   ensures err == nil ==> forall h string :: pathsDesc(t[h])
+//@   loop 2 invariant forall h string :: visited(h) ==> pathsDesc(t[h])
+//@   at "sort.Sort(h)" assert pathsDesc(h)
 //@   loop 1 invariant t != nil && fresh(t) && tableOK(t) && sepHosts(t) && forall i int :: 0 <= i && i < len(defs) ==> defs[i] != nil
 //@   loop 2 invariant t != nil && sepHosts(t)
 //@   loop 2 invariant tableOK(t)
